@@ -14,31 +14,39 @@ open Duck.Spec Duck.Generated
 /-! ### run composition -/
 
 /-- the machine, started in `(l, v, s)`, reaches `(l', v', s')` after finitely many steps, whatever
-    the nested evaluator, the remaining fuel and the poll counter are -/
+    the fuel (from 3 on) of the nested evaluator, the remaining fuel and the poll counter are -/
 def Steps (is : List Instruction) (l : Nat) (v : Vars) (s : Sdk) (l' : Nat) (v' : Vars) (s' : Sdk) :
     Prop :=
-  ∃ n, ∀ (nested : EvalFn) (k p : Nat),
-    runLoop (sdkSem nested is) is (labelTable is) (fun _ _ => false) (n + k) ⟨l, p, v, s⟩ =
-      runLoop (sdkSem nested is) is (labelTable is) (fun _ _ => false) k ⟨l', p + n, v', s'⟩
+  ∃ n, ∀ (f k p : Nat), 3 ≤ f →
+    runLoop (sdkSem (evalInstrsF f) is) is (labelTable is) (fun _ _ => false) (n + k) ⟨l, p, v, s⟩ =
+      runLoop (sdkSem (evalInstrsF f) is) is (labelTable is) (fun _ _ => false) k ⟨l', p + n, v', s'⟩
 
 theorem Steps.refl (is : List Instruction) (l : Nat) (v : Vars) (s : Sdk) : Steps is l v s l v s :=
-  ⟨0, fun _ k p => by simp⟩
+  ⟨0, fun _ k p _ => by simp⟩
 
 theorem Steps.trans {is : List Instruction} {l1 l2 l3 : Nat} {v1 v2 v3 : Vars} {s1 s2 s3 : Sdk}
     (h1 : Steps is l1 v1 s1 l2 v2 s2) (h2 : Steps is l2 v2 s2 l3 v3 s3) :
     Steps is l1 v1 s1 l3 v3 s3 := by
   obtain ⟨n1, h1⟩ := h1
   obtain ⟨n2, h2⟩ := h2
-  refine ⟨n1 + n2, fun nested k p => ?_⟩
-  rw [Nat.add_assoc, h1, h2, Nat.add_assoc]
+  refine ⟨n1 + n2, fun f k p hf => ?_⟩
+  rw [Nat.add_assoc, h1 f _ _ hf, h2 f _ _ hf, Nat.add_assoc]
+
+/-- one step whose outcome may depend on the nested evaluator (command conditions) -/
+theorem Steps.singleF {is : List Instruction} {l l' : Nat} {v v' : Vars} {s s' : Sdk}
+    (h : ∀ (f : Nat), 3 ≤ f → ∀ (p : Nat),
+      runStep (sdkSem (evalInstrsF f) is) is (labelTable is) (fun _ _ => false) ⟨l, p, v, s⟩ =
+        .inl ⟨l', p + 1, v', s'⟩) :
+    Steps is l v s l' v' s' := by
+  refine ⟨1, fun f k p hf => ?_⟩
+  rw [Nat.add_comm 1 k, runLoop_succ, h f hf]
 
 theorem Steps.single {is : List Instruction} {l l' : Nat} {v v' : Vars} {s s' : Sdk}
     (h : ∀ (nested : EvalFn) (p : Nat),
       runStep (sdkSem nested is) is (labelTable is) (fun _ _ => false) ⟨l, p, v, s⟩ =
         .inl ⟨l', p + 1, v', s'⟩) :
-    Steps is l v s l' v' s' := by
-  refine ⟨1, fun nested k p => ?_⟩
-  rw [Nat.add_comm 1 k, runLoop_succ, h]
+    Steps is l v s l' v' s' :=
+  Steps.singleF (fun f _ p => h (evalInstrsF f) p)
 
 theorem Steps.cast {is : List Instruction} {l l' l'' : Nat} {v v' v'' : Vars} {s s' s'' : Sdk}
     (h : Steps is l v s l' v' s') (hl : l' = l'') (hv : v' = v'') (hs : s' = s'') :
